@@ -357,7 +357,7 @@ func (r *runner) doClient(op Op) []gate.Event {
 			})
 		}
 		fast := r.timed(call)
-		if !fast && len(got) > 0 {
+		for try := 0; try < 3 && !fast && len(got) > 0; try++ {
 			// a transient stall of the machine is not a long poll that waits: a server that waits does so every time
 			ev["retried"] = true
 			fast = r.timed(call)
@@ -444,7 +444,11 @@ func (r *runner) doRaw(op Op) []gate.Event {
 			}
 		}
 		ev := r.raw.enum(after, op.Limit, wait)
-		if lst, _ := ev["list"].([]any); wait == 2 && ev["fast"] == false && len(lst) > 0 {
+		for try := 0; try < 3; try++ {
+			lst, _ := ev["list"].([]any)
+			if !(wait == 2 && ev["fast"] == false && len(lst) > 0) {
+				break
+			}
 			// a transient stall of the machine is not a long poll that waits: a server that waits does so every time
 			ev = r.raw.enum(after, op.Limit, wait)
 			ev["retried"] = true
